@@ -277,6 +277,86 @@ func srvSupported(fc uint8) bool {
 	return false
 }
 
+// MBAP length fields beyond the largest legal ADU (254): the classifier delimits any length, the
+// connection loop reads 300 bytes at a time
+var srvOverLens = []int{255, 256, 260, 300, 512, 1000}
+
+// srvOversize: a frame whose MBAP length field is L, all 6+L announced bytes present.
+//
+//	shape 0: a valid request of function fc followed by padding (covered by the length field)
+//	shape 1: FC15/16/23 (fc selects) whose byte count covers as much of the frame as a count byte
+//	         can, with that much data (filling the frame exactly when 6+L allows it)
+//	shape 2: random body behind the supported function code fc
+//	shape 3: random body behind an unsupported function code 1..127
+func srvOversize(r *rng, tid uint16, L int, shape int, fc int) []byte {
+	total := 6 + L
+	var b []byte
+	switch shape {
+	case 0:
+		b = srvLegal(r, fc, tid, 0)
+		pad := r.bytes(total - len(b))
+		switch r.intn(3) {
+		case 0:
+			for i := range pad {
+				pad[i] = 0
+			}
+		case 1:
+			for i := range pad {
+				pad[i] = 0xFF
+			}
+		}
+		b = append(b, pad...)
+	case 1:
+		f := []int{15, 16, 23}[fc%3]
+		fixed := 13
+		if f == 23 {
+			fixed = 17
+		}
+		b = srvLegal(r, f, tid, 0)[:fixed]
+		bc := total - fixed
+		if bc > 255 {
+			bc = 255 - r.intn(2)
+		}
+		b[fixed-1] = byte(bc)
+		switch r.intn(3) { // the count field: small, "consistent" with the byte count, or kept
+		case 0:
+			binary.BigEndian.PutUint16(b[fixed-3:fixed-1], 2)
+		case 1:
+			binary.BigEndian.PutUint16(b[fixed-3:fixed-1], uint16(bc/2))
+		}
+		b = append(b, r.bytes(total-fixed)...)
+	case 2:
+		b = srvRawFrame(tid, r.u8(), uint8(fc), r.bytes(L-2))
+	default:
+		for {
+			u := uint8(1 + r.intn(127))
+			if !srvSupported(u) {
+				b = srvRawFrame(tid, r.u8(), u, r.bytes(L-2))
+				break
+			}
+		}
+	}
+	binary.BigEndian.PutUint16(b[4:6], uint16(L))
+	if len(b) != total {
+		panic("srvOversize: length")
+	}
+	return b
+}
+
+// srvOversizeStreams: every oversize shape for every length, each followed by a normal request
+func srvOversizeStreams(r *rng, f func(s []byte)) {
+	for _, L := range srvOverLens {
+		for i, fc := range srvFcs {
+			f(append(srvOversize(r, srvTid(r, false), L, 0, fc), srvLegal(r, srvFcs[(i+3)%10], srvTid(r, false)&^4, 0)...))
+		}
+		for k := 0; k < 3; k++ {
+			f(append(srvOversize(r, srvTid(r, false), L, 1, k), srvLegal(r, srvFcs[r.intn(10)], srvTid(r, false)&^4, 0)...))
+			f(append(srvOversize(r, srvTid(r, false), L, 2, srvFcs[r.intn(10)]), srvLegal(r, srvFcs[r.intn(10)], srvTid(r, false)&^4, 0)...))
+			f(append(srvOversize(r, srvTid(r, false), L, 3, 0), srvLegal(r, srvFcs[r.intn(10)], srvTid(r, false)&^4, 0)...))
+		}
+	}
+}
+
 // srvGarbage: bytes that are not the start of a Modbus TCP ADU
 func srvGarbage(r *rng) []byte {
 	switch r.intn(5) {
